@@ -76,10 +76,8 @@ Definition fdescend_one (cfg exitset hist : list nat) (acc : list nat * list nat
         let es2 := match fs_type s with
                    | FHistDeep =>
                      if negb (intersects (ft_targets t) (desc i))
-                     then match filter (fun k => i <? k) (ft_targets t) with
-                          | k :: _ => set_union es1 (fs_ancestors (st c k))
-                          | [] => es1
-                          end
+                     then fold_left (fun a k => set_union a (fs_ancestors (st c k)))
+                                    (filter (fun k => i <? k) (ft_targets t)) es1
                      else es1
                    | _ => es1
                    end in
